@@ -1218,4 +1218,182 @@ theorem pot_step_lt {i : SInput} {s : CSt} (hq : QInv i s) (hb : BI i s) {t : Na
     simp only [pot, mainPot]
     omega
 
+theorem enabled_of_cons {b : St} {t : Nat} {a : Step} {rest : List Step} (hs : b.sem = none) (h : b.pcs[t]? = some (a :: rest)) :
+    enabled b t = true := by
+  unfold enabled
+  rw [h]
+  cases a <;> simp [hs]
+
+theorem workerDone_of_unfinished_nil {s : CSt} (hu : unfinished s = []) {w : Nat} (hw : w < s.nsp) : workerDone s w = true := by
+  unfold unfinished at hu
+  have := List.filter_eq_nil_iff.mp hu w (List.mem_range.mpr hw)
+  simpa using this
+
+/-- **no reachable state is stuck**: while `run()` has not ended or a started worker is unfinished, some
+thread is enabled -/
+theorem exists_enabledC {i : SInput} {s : CSt} (hq : QInv i s) (hb : BI i s) (hnf : finishedC s = false) :
+    ∃ t, t < s.base.pcs.length ∧ enabledC i s t = true := by
+  obtain ⟨c, cu, td, r, hb⟩ := hb
+  cases hsem : s.base.sem with
+  | some k =>
+    obtain ⟨hk, hpc⟩ := hb.inv.ins k hsem
+    have hen : enabled s.base k = true := by
+      unfold enabled
+      cases td with
+      | nil => simp [callSteps] at hpc; simp [hpc]
+      | cons x xs => simp [callSteps] at hpc; simp [hpc]
+    refine ⟨k, by rw [hb.inv.len]; exact hk, ?_⟩
+    unfold enabledC
+    by_cases hk0 : k = 0
+    · subst hk0
+      have hab : s.mpc = .abort := by
+        by_cases hc : s.mpc = .abort
+        · exact hc
+        · have := hb.main_idle hc
+          rw [this] at hpc
+          cases td <;> simp [callSteps] at hpc
+      simp [mainEnabled, hab, hen]
+    · rcases hb.holder k hsem with h1 | h1
+      · exact absurd h1 hk0
+      · simp [hk0, h1, hen]
+  | none =>
+    by_cases hu : unfinished s = []
+    · -- every started worker is finished: main is not done
+      have hnd : s.mpc ≠ .done := by
+        intro hc; simp [finishedC, hc, hu] at hnf
+      refine ⟨0, by rw [hq.n_pcs]; omega, ?_⟩
+      unfold enabledC mainEnabled
+      simp only [if_true]
+      split
+      · rfl
+      · rename_i hg
+        have hreg := hq.mpc_get hg
+        obtain ⟨w, hw⟩ := List.exists_mem_of_ne_nil _ hreg
+        obtain ⟨hw1, hw2⟩ := (hq.reg_iff w).mp hw
+        have hdone := workerDone_of_unfinished_nil hu hw1
+        have hwpc : wpc s w = [] := by
+          unfold workerDone at hdone
+          simp [wpc, beq_iff_eq.mp hdone]
+        have : projQ w s.base.queue ≠ [] := by
+          intro hc; apply hw2; simp [todoItems, hc, hwpc, stepItems]
+        have hqne : s.base.queue ≠ [] := by
+          intro hc; apply this; simp [projQ, hc]
+        simp [hqne]
+      · rename_i w hw
+        exact workerDone_of_unfinished_nil hu (hq.mpc_join w hw)
+      · rfl
+      · rename_i ha
+        have hbusy := hb.abort_busy ha
+        have hlt : 0 < s.base.pcs.length := by rw [hq.n_pcs]; omega
+        cases hp : s.base.pcs[0]? with
+        | none => simp [hp] at hbusy
+        | some x =>
+          cases x with
+          | nil => simp [hp] at hbusy
+          | cons a rest => exact enabled_of_cons hsem hp
+      · rename_i hd; exact absurd hd hnd
+    · -- some started worker still has steps; the semaphore is free, so it can take one
+      obtain ⟨w, hw⟩ := List.exists_mem_of_ne_nil _ hu
+      unfold unfinished at hw
+      obtain ⟨hw1, hw2⟩ := List.mem_filter.mp hw
+      have hw1 := List.mem_range.mp hw1
+      have hwn : w + 1 < s.base.pcs.length := by
+        rw [hq.n_pcs]; have := Nat.le_trans hq.nsp_le (spawnCount_le i); omega
+      refine ⟨w + 1, hwn, ?_⟩
+      have hpc : ∃ a rest, s.base.pcs[w + 1]? = some (a :: rest) := by
+        unfold workerDone at hw2
+        cases hp : s.base.pcs[w + 1]? with
+        | none => simp [List.getElem?_eq_none_iff] at hp; omega
+        | some x =>
+          cases x with
+          | nil => simp [hp] at hw2
+          | cons a rest => exact ⟨a, rest, rfl⟩
+      obtain ⟨a, rest, hpc⟩ := hpc
+      unfold enabledC
+      simp [hw1, enabled_of_cons hsem hpc]
+
+theorem firstEnabledC_some {i : SInput} {s : CSt} {t : Nat} (h : firstEnabledC i s = some t) : enabledC i s t = true := by
+  unfold firstEnabledC at h
+  exact List.find?_some h
+
+theorem firstEnabledC_none {i : SInput} {s : CSt} (h : firstEnabledC i s = none) :
+    ∀ t, t < s.base.pcs.length → enabledC i s t = false := by
+  unfold firstEnabledC at h
+  intro t ht
+  have := List.find?_eq_none.mp h t (List.mem_range.mpr ht)
+  simpa using this
+
+/-- with enough fuel the run ends: `run()` has returned or raised and every started thread has ended -/
+theorem drainC_finishes {i : SInput} : ∀ (fuel : Nat) {s : CSt}, QInv i s → BI i s → pot i s ≤ fuel →
+    finishedC (drainC i fuel s) = true := by
+  intro fuel
+  induction fuel with
+  | zero =>
+    intro s hq hb hp
+    simp only [drainC]
+    cases hf : finishedC s with
+    | true => rfl
+    | false =>
+      obtain ⟨t, _, he⟩ := exists_enabledC hq hb hf
+      have := pot_step_lt hq hb he
+      omega
+  | succ f ih =>
+    intro s hq hb hp
+    unfold drainC
+    cases hfe : firstEnabledC i s with
+    | none =>
+      simp only
+      cases hf : finishedC s with
+      | true => rfl
+      | false =>
+        obtain ⟨t, ht, he⟩ := exists_enabledC hq hb hf
+        rw [firstEnabledC_none hfe t ht] at he
+        cases he
+    | some t =>
+      simp only
+      have he := firstEnabledC_some hfe
+      have := pot_step_lt hq hb he
+      exact ih (QInv_stepC hq t) (BI_stepC hb hq t) (by omega)
+
+theorem pot_stepC_le {i : SInput} {s : CSt} (hq : QInv i s) (hb : BI i s) (t : Nat) : pot i (stepC i s t) ≤ pot i s := by
+  cases he : enabledC i s t with
+  | true => exact Nat.le_of_lt (pot_step_lt hq hb he)
+  | false => rw [stepC_of_not_enabled he]; exact Nat.le_refl _
+
+theorem pot_runC_le {i : SInput} (sched : List Nat) : ∀ {s : CSt}, QInv i s → BI i s → pot i (runC i s sched) ≤ pot i s := by
+  induction sched with
+  | nil => intro s _ _; exact Nat.le_refl _
+  | cons t rest ih =>
+    intro s hq hb
+    exact Nat.le_trans (ih (QInv_stepC hq t) (BI_stepC hb hq t)) (pot_stepC_le hq hb t)
+
+theorem initC_base (i : SInput) : (initC i).base = { pcs := [] :: (progs i).map fun p => segSteps p.segs } := by
+  unfold initC nextSpawn
+  split
+  · rfl
+  · split
+    · unfold abortMain
+      split
+      · rfl
+      · rfl
+    · simp
+
+theorem pot_init_le (i : SInput) : pot i (initC i) ≤ fuelC i := by
+  have hb := initC_base i
+  have := pot_nextSpawn_le i { base := { pcs := [] :: (progs i).map fun p => segSteps p.segs },
+                               flags := i.workers.map fun _ => false } 0 (by simp)
+  unfold fuelC
+  rw [hb]
+  unfold initC at hb ⊢
+  have hs := spawnCount_le i
+  simp at this
+  omega
+
+/-- **the model's run always ends** -/
+theorem finalC_finished (i : SInput) : finishedC (finalC i) = true := by
+  unfold finalC
+  have hq := QInv_runC i.sched (QInv_init i)
+  have hbb := BI_runC i.sched (BI_init i) (QInv_init i)
+  exact drainC_finishes _ hq hbb (Nat.le_trans (pot_runC_le i.sched (QInv_init i) (BI_init i)) (pot_init_le i))
+
 end TTV.Conc
